@@ -420,6 +420,24 @@ ENUM_SETS = [
     [{"t": "bytes", "k": "plain", "v": [65, 66]}, {"t": "bytes", "k": "hex", "v": [255]}],
     # members of XmlDate/XmlTime type are compared with the Xml* classes' own __eq__ (C06): not modelled
 ]
+# one lexical string that denotes different members under different prefix maps / binary
+# formats: the result must depend on the arguments of *this* call only (a seeded change
+# memoised the member per (enum, string) and was not seen while every enumeration was asked
+# with one prefix map)
+ENUM_SETS_CTX = [
+    [{"t": "qname", "v": "{urn:u}a"}, {"t": "qname", "v": "{urn:v}a"}, {"t": "qname", "v": "a"}],
+    [{"t": "bytes", "k": "plain", "v": [0xAB, 0xCD]}, {"t": "bytes", "k": "plain", "v": [0x00, 0x10, 0x83]}],
+]
+ENUM_CTX_KWS = [
+    KW(format="base16", ns_map=[["u", "urn:u"]]),
+    KW(format="base64", ns_map=[["u", "urn:v"]]),
+    KW(format="base16", ns_map=[[None, "urn:u"]]),
+    KW(format="base64", ns_map=[[None, "urn:v"], ["u", "urn:u"]]),
+    KW(format="base16", ns_map=[["u", "urn:v"], ["w", "urn:u"]]),
+    KW(format="base64", ns_map=None),
+    KW(format="base16", ns_map=[["u", "urn:u"]]),
+]
+ENUM_CTX_STRINGS = ["u:a", "a", " u:a ", "w:a", "ABCD", "abcd", " ABCD", "{urn:v}a"]
 ENUM_STRINGS = [
     "a", " a ", "b c", "b  c", " b\tc\n", "", " ", "  ", " x", "x", "a  b", "a b", "1", " 1 ", "01", "1.0", "1.50", "1.5", "10", "-5", "1e22", "1E22", "1E+22", "nan", "NaN", "INF", "inf",
     "0", "-0", "0.0", "1000", "1E3", "-Infinity", "-INF", "a b", "b a", "1 2 3", "1 2", "1  2\t3", "01 2.0 3", "true", "false", "1", "0", "{urn:u}a", "u:a", "b", "{urn:a-b}c", "a:c",
@@ -706,6 +724,12 @@ def gen_de_all(rng, tier):
     for members in ENUM_SETS:
         for s in ENUM_STRINGS:
             yield de_case(s, [{"enum": members}], KW(format="base16", ns_map=[["u", "urn:u"], ["a", "urn:a-b"]]))
+    for members in ENUM_SETS_CTX:
+        for s in ENUM_CTX_STRINGS:
+            for kw in ENUM_CTX_KWS:
+                yield de_case(s, [{"enum": members}], kw)
+    for _ in range(100 if quick else 2000):
+        yield de_case(pad(rng, rng.choice(ENUM_CTX_STRINGS)), [{"enum": rng.choice(ENUM_SETS_CTX)}], rng.choice(ENUM_CTX_KWS))
     for _ in range(400 if quick else 8000):
         members = rand_enum(rng)
         if members is None:
@@ -1186,9 +1210,27 @@ def _enum_accepts(members, s, kw, kwargs):
             if hit:
                 exp = i
                 break
+    elif kind in ("qname", "bytes"):
+        valid, v = xsd_value("QName" if kind == "qname" else "bytes", s, kw)
+        if not valid:
+            return None
+        for i, m in enumerate(members):
+            mv = dec_atom(m)
+            if (mv.text if kind == "qname" else bytes(mv)) == v:
+                exp = i
+                break
     if exp is None:
         return None
     cls = make_enum(members)
+    if kind in ("qname", "bytes"):
+        # the member denoted depends on the prefix map / binary format of *this* call only:
+        # ask the same string under the other contexts first
+        for other in ENUM_CTX_KWS:
+            if other != kw:
+                try:
+                    converter.deserialize(s, [cls], **dec_kw(other))
+                except Exception:  # noqa: BLE001, S110
+                    pass
     try:
         got = converter.deserialize(s, [cls], **kwargs)
     except ConverterError:
